@@ -276,7 +276,7 @@ theorem sinv_backup {s : St} {o : BOpts} {now : Nat} (h : SInv s) (hnow : s.last
       rcases List.mem_cons.1 he with he | he
       · rw [he]; exact Nat.le_refl _
       · have := h.histLe e he; omega
-    · simp only [hw, if_false] at he
+    · simp only [hw] at he
       have := h.histLe e he; omega
   · intro f hf
     show f.name.date ≤ now
